@@ -44,13 +44,26 @@ def _fix_equality(xml):
   return xml
 
 
-def batch_model(m, nworld):
-  """tile every per-world-batchable ('*') Model / Option field to nworld rows (as a user batching parameters would)."""
+def batchable_fields(m):
+  out = []
+  for obj, pre in ((m, ""), (m.opt, "opt.")):
+    for f in dataclasses.fields(obj):
+      shp = getattr(f.type, "shape", None)
+      if shp and shp[0] == "*":
+        out.append(pre + f.name)
+  return sorted(out)
+
+
+def batch_model(m, nworld, select=None):
+  """tile per-world-batchable ('*') Model / Option fields to nworld rows (as a user batching parameters would);
+  select: optional set of field names (default: all)."""
   n = 0
-  for obj in (m, m.opt):
+  for obj, pre in ((m, ""), (m.opt, "opt.")):
     for f in dataclasses.fields(obj):
       shp = getattr(f.type, "shape", None)
       if not shp or shp[0] != "*":
+        continue
+      if select is not None and (pre + f.name) not in select:
         continue
       v = getattr(obj, f.name, None)
       if isinstance(v, wp.array) and v.shape[0] == 1 and v.ptr:
@@ -58,6 +71,19 @@ def batch_model(m, nworld):
         setattr(obj, f.name, wp.array(np.repeat(a, nworld, axis=0), dtype=v.dtype))
         n += 1
   return n
+
+
+def covering_selections(fields):
+  """2*ceil(log2 n) subsets such that for every ordered pair (a, b) of distinct fields some subset contains a and not b:
+  kernels specialised on which fields are batched are then built for every 'a batched, b not' combination."""
+  n = len(fields)
+  nb = max(1, (n - 1).bit_length())
+  sels = []
+  for b in range(nb):
+    one = {f for i, f in enumerate(fields) if (i >> b) & 1}
+    sels.append(one)
+    sels.append(set(fields) - one)
+  return sels
 
 
 def field_map(m, d):
@@ -84,7 +110,7 @@ def field_map(m, d):
 
 
 class Launch:
-  __slots__ = ("kernel", "dim", "binding", "shapes", "scalars", "model", "sizes", "dim_src", "site")
+  __slots__ = ("kernel", "dim", "binding", "shapes", "scalars", "model", "sizes", "dim_src", "site", "args_np")
 
 
 _file_asts = {}
@@ -95,6 +121,19 @@ def _launch_dim_source(frame):
   import ast
 
   fn, ln = frame.f_code.co_filename, frame.f_lineno
+  if (fn, ln) in _dim_cache:
+    return _dim_cache[(fn, ln)]
+  r = _launch_dim_source_uncached(fn, ln)
+  _dim_cache[(fn, ln)] = r
+  return r
+
+
+_dim_cache = {}
+
+
+def _launch_dim_source_uncached(fn, ln):
+  import ast
+
   try:
     if fn not in _file_asts:
       _file_asts[fn] = ast.parse(open(fn).read())
@@ -116,7 +155,7 @@ def _launch_dim_source(frame):
     return None, f"{fn}:{ln}"
 
 
-def harvest(models=None, variants=None, nworld=2, steps=2, extra=None, log=None, batched=("dense-newton-pyr", "sparse-newton-ell")):
+def harvest(models=None, variants=None, nworld=2, steps=2, extra=None, log=None, batched=("dense-newton-pyr", "sparse-newton-ell"), mixed=True, keep_args=None):
   """-> dict kernel.key -> list[Launch]"""
   import mujoco
 
@@ -142,6 +181,9 @@ def harvest(models=None, variants=None, nworld=2, steps=2, extra=None, log=None,
         L.binding.append(None)
         L.shapes.append(None)
         L.scalars.append(a)
+    L.args_np = None
+    if keep_args and keep_args(kernel):
+      L.args_np = [(a.numpy().copy() if isinstance(a, wp.array) and a.ptr else (np.zeros(a.shape + (() if not hasattr(a.dtype, "_shape_") else tuple(a.dtype._shape_))) if isinstance(a, wp.array) else a)) for a in args]
     L.model = cur["name"]
     L.sizes = cur["sizes"]
     import sys
@@ -185,6 +227,34 @@ def harvest(models=None, variants=None, nworld=2, steps=2, extra=None, log=None,
           except Exception as ex:
             if log:
               log(f"batched step failed for {mname}/{vname}: {type(ex).__name__}: {ex}")
+          if mixed and vname == batched[0]:
+            # mixed batching: every 'field a batched, field b unbatched' combination occurs in some pass
+            # only fields whose batch size is captured as a closure constant n<field> by some harvested kernel matter:
+            # every other kernel reads shape[0] at run time and is checked with a symbolic batch size
+            import inspect as _insp
+
+            allf = batchable_fields(m)
+            names = set()
+            for Ls in out.values():
+              try:
+                names |= {k_ for k_, v_ in _insp.getclosurevars(Ls[0].kernel.func).nonlocals.items() if isinstance(v_, int)}
+              except Exception:
+                pass
+            relevant = [f for f in allf if ("n" + f.replace("opt.", "opt_")) in names]
+            for si, sel in enumerate(covering_selections(relevant) if relevant else []):
+              try:
+                m2 = mjw.put_model(mjm)
+                d2 = mjw.put_data(mjm, mjd, nworld=nworld)
+                batch_model(m2, nworld, select=sel)
+                cur["fmap"] = field_map(m2, d2)
+                cur["name"] = f"{mname}/{vname}/mixed{si}"
+                cur["sizes"] = sizes_of(m2, d2)
+                # kernels specialised on batch sizes live in the position stage (broadphase filters); the remaining
+                # stages are covered by the unbatched / fully batched passes above
+                mjw.fwd_position(m2, d2)
+              except Exception as ex:
+                if log:
+                  log(f"mixed-batch step {si} failed for {mname}/{vname}: {type(ex).__name__}: {ex}")
   finally:
     wp.launch = orig
   return out
